@@ -328,6 +328,15 @@ func (sc *serverConn) newWriterAndRequest(st *stream, f *SynStreamFrame) (
 		state.SpdyErrBadRequest.Inc(1)
 		return nil, nil, StreamError{st.id, ProtocolError}
 	}
+	if !validToken(method) || !validRequestLineValue(path) || !validRequestLineValue(host) ||
+		!validRequestHeader(header) {
+		// The method, path, host and header fields are forwarded as part
+		// of a HTTP/1.x message. Bytes that delimit the elements of such
+		// a message (SP, CR, LF, ':' in field name ...) or that are not
+		// allowed in it make the request malformed.
+		state.SpdyErrBadRequest.Inc(1)
+		return nil, nil, StreamError{st.id, ProtocolError}
+	}
 	bodyOpen := st.state == stateOpen
 	if method == "HEAD" && bodyOpen {
 		// HEAD requests can't have bodies
